@@ -514,6 +514,121 @@ theorem failure_reported_dequeue {cfg : Cfg} {n : Nat} {s s' : State} (hrep : cf
       exact this
     · exact ⟨hnull.1, Or.inl hnull.2⟩
 
+/-! ### a pool without failures behaves like the serial pool -/
+
+/-- **Healthy pool = serial pool, return value by return value.**  If no callback ever fails, then as long as
+`destroy` has not taken the lock the status is 0 in every reachable state: `submit` returns 0 and enqueues,
+`get_status` returns 0 (`failure_reported_submit`, `failure_reported_get_status` give the values), exactly as
+`threadpool_serial.c` does. -/
+theorem healthy_status_zero {cfg : Cfg} {n : Nat} {s : State} (hok : ∀ d, cfg.rcOf d = 0)
+    (hr : Reachable cfg n s) (hj : ¬ s.main.inJoin) : s.status = 0 := by
+  rcases Decidable.em (s.status = 0) with h | h
+  · exact h
+  · rcases (failure_recorded hr).1 h with h1 | ⟨p, _, hp⟩
+    · exact absurd h1 hj
+    · rw [hok] at hp; exact absurd hp.symm h
+
+/-- … and `dequeue` answers NULL only when the pool is empty (every submitted item has been handed back) or —
+repaired code — after a failure.  Together with `fifo` (the `k`-th non-NULL answer is the `k`-th submitted item)
+this is the serial pool's `dequeue`. -/
+theorem dequeue_null_only_if {cfg : Cfg} {s s' : State} (c : Choice) (hs : step cfg s c = some s')
+    (hret : s'.rets = s.rets ++ [.deq none]) :
+    s.itemCount = 0 ∨ (cfg.repaired = true ∧ s.status ≠ 0) := by
+  cases c with
+  | worker i spur =>
+    exfalso
+    simp only [step] at hs
+    unfold stepWorker at hs
+    have hg : ∀ (t : State) (j : Nat), (getNextWork t j).rets = t.rets := by
+      intro t j; unfold getNextWork; split
+      · rfl
+      · split <;> rfl
+    split at hs
+    · simp at hs
+    · split at hs
+      · simp at hs
+      · simp only [Option.some.injEq] at hs; subst hs; rw [hg] at hret; exact rets_ne_self _ _ hret
+    · split at hs
+      · simp only [Option.some.injEq] at hs; subst hs; rw [hg] at hret; exact rets_ne_self _ _ hret
+      · simp at hs
+    · split at hs
+      · simp at hs
+      · simp only [Option.some.injEq] at hs; subst hs; exact rets_ne_self _ _ hret
+    · split at hs
+      · simp at hs
+      · simp only [Option.some.injEq] at hs; subst hs; rw [hg] at hret; exact rets_ne_self _ _ hret
+    · simp at hs
+  | main mc =>
+    simp only [step] at hs
+    have hwait : ∀ t : State, (deqWaitOrNull cfg t).rets = t.rets ++ [.deq none] →
+        cfg.repaired = true ∧ t.status ≠ 0 := by
+      intro t ht
+      unfold deqWaitOrNull at ht
+      split at ht
+      · rename_i hc
+        simp only [Bool.and_eq_true, decide_eq_true_eq] at hc
+        exact hc
+      · exact absurd ht (rets_ne_self _ _)
+    have htry : (deqTry cfg s).rets = s.rets ++ [.deq none] → cfg.repaired = true ∧ s.status ≠ 0 := by
+      intro ht
+      unfold deqTry at ht
+      split at ht
+      · exact hwait s ht
+      · split at ht
+        · simp [deqReturn] at ht
+        · exact hwait s ht
+    unfold stepMain at hs
+    split at hs
+    · simp only [Option.some.injEq] at hs; subst hs; exact absurd hret (rets_ne_self _ _)
+    · split at hs
+      · rename_i h0; exact Or.inl h0
+      · split at hs
+        · simp only [Option.some.injEq] at hs; subst hs; simp [deqReturn] at hret
+        · simp only [Option.some.injEq] at hs; subst hs; exact absurd hret (rets_ne_self _ _)
+    · simp only [Option.some.injEq] at hs; subst hs; exact absurd hret (rets_ne_self _ _)
+    · simp only [Option.some.injEq] at hs; subst hs; exact absurd hret (rets_ne_self _ _)
+    · simp only [Option.some.injEq] at hs; subst hs
+      exfalso; revert hret
+      unfold submitBody; by_cases h0 : s.status = 0 <;> simp [h0]
+    · simp only [Option.some.injEq] at hs; subst hs; exact Or.inr (htry hret)
+    · split at hs
+      · simp only [Option.some.injEq] at hs; subst hs; exact Or.inr (htry hret)
+      · simp at hs
+    · simp only [Option.some.injEq] at hs; subst hs; simp at hret
+    · simp only [Option.some.injEq] at hs; subst hs
+      exfalso; revert hret
+      show (if s.workers.length = 0 then s.rets ++ [Ret.destroyed] else s.rets) ≠ s.rets ++ [.deq none]
+      split
+      · simp
+      · exact rets_ne_self _ _
+    · split at hs
+      · split at hs
+        · simp only [Option.some.injEq] at hs; subst hs; exact absurd hret (rets_ne_self _ _)
+        · simp only [Option.some.injEq] at hs; subst hs; simp at hret
+      · simp at hs
+    · simp at hs
+
+/-- **A failure-free threaded pool refines the serial pool.**  If no callback fails then, under every schedule
+(any number of workers, spurious wake-ups included), whenever the main thread is between two API calls — or has
+returned from `destroy` — the values its calls have returned so far are exactly the values
+`threadpool_serial.c` returns for the same sequence of calls. -/
+theorem refines_serial {cfg : Cfg} {n : Nat} {s : State} (hok : ∀ d, cfg.rcOf d = 0) (hr : Reachable cfg n s)
+    (hidle : s.main = .idle ∨ s.main = .finished) :
+    s.rets = (Serial.run cfg.rcOf Serial.init s.calls).rets := by
+  obtain ⟨cdone, h1, h2, _⟩ := invR_reachable hok hr
+  have : (mainPending s.main).toList = [] := by
+    rcases hidle with h | h <;> (rw [h]; rfl)
+  rw [this, append_nil] at h1
+  rw [h1, h2]
+
+/-- … and while a call is in progress, for the calls that have returned -/
+theorem refines_serial_prefix {cfg : Cfg} {n : Nat} {s : State} (hok : ∀ d, cfg.rcOf d = 0)
+    (hr : Reachable cfg n s) :
+    ∃ cdone, s.calls = cdone ++ (mainPending s.main).toList ∧
+      s.rets = (Serial.run cfg.rcOf Serial.init cdone).rets := by
+  obtain ⟨cdone, h1, h2, _⟩ := invR_reachable hok hr
+  exact ⟨cdone, h1, h2.symm⟩
+
 /-! ### non-vacuity -/
 
 /-- a concrete execution (2 workers, items 7 and 9, worker 1 overtakes worker 0) that reaches a state where
@@ -555,5 +670,15 @@ example :
    .cons (s1 := run ⟨true, fun _ => 0⟩ (init 2)
             [.main (.call (.submit 3)), .main (.cont false), .main (.call .dequeue), .main (.cont false), .worker 1 false])
      (by decide) (by decide) (.cons (by decide) (by decide) (.nil _))⟩
+
+/-- `refines_serial` on a concrete out-of-order execution -/
+example :
+    let cfg : Cfg := ⟨true, fun _ => 0⟩
+    let s := run cfg (init 2)
+      [.main (.call (.submit 7)), .main (.cont false), .main (.call (.submit 9)), .main (.cont false),
+       .worker 0 false, .worker 1 false, .worker 1 false, .worker 1 false, .worker 0 false, .worker 0 false,
+       .main (.call .dequeue), .main (.cont false), .main (.call .getStatus), .main (.cont false)]
+    s.main = .idle ∧ s.calls = [.submit 7, .submit 9, .dequeue, .getStatus] ∧
+    s.rets = [.submit 0, .submit 0, .deq (some 7), .status 0] := by decide
 
 end Sqfs.C09
